@@ -27,7 +27,11 @@ func openWith(name string, blocks *vstub.Blocks, cache *vstub.Cache, maxHistory 
 
 func addN(b *BaseStore, n int, tag byte) {
 	for k := 0; k < n; k++ {
-		if _, err := b.AddOperation(context.Background(), operation.NewOperation(nil, "ADD", []byte{tag, byte(k)}), nil); err != nil {
+		payload := []byte{tag, byte(k)}
+		if vstub.NativeBigPayload() {
+			payload = append(payload, make([]byte, 70000)...)
+		}
+		if _, err := b.AddOperation(context.Background(), operation.NewOperation(nil, "ADD", payload), nil); err != nil {
 			vstub.Fail("AddOperation failed")
 		}
 	}
